@@ -10,6 +10,7 @@
 (5) socket level (read_frame / skip_bytes loops): see props/sock_common.py, run from here.
 """
 import z3
+from mirse.values import Enum
 from .common import *
 from .wire import *
 from .world import St
@@ -66,6 +67,24 @@ def run(tier, seed, replay_path=None):
                     return (True if c['result'] == 'none' and mval(m, HD.body) > mval(m, D.limit) and len(data) >= 24 else None), desc, sa
                 ck.obligation('decode: more bytes are awaited only for bodies within the item limit', p.pc,
                               z3.Or(z3.ULT(D.total, 24), z3.ULE(HD.body, D.limit), o.consumed == 0), {}, on_mem, small)
+        # never loops: once a frame (an oversized one included) has been handed out, the parser is back in its initial state,
+        # so that an empty buffer gives "need more" and not the same frame again
+        if a.tag == 'some':
+            stt = a.codec.fields[1]
+            fresh_state = isinstance(stt, Enum) and stt.var == 0
+
+            def on_ps(m, where):
+                from .C09 import scen_pair
+                sa, sb, data, k = scen_pair(m)
+                body = mval(m, HD.body)
+                n = 24 if body > mval(m, D.limit) else 24 + body
+                sc = {'kind': 'decode', 'item_limit': mval(m, D.limit), 'chunks': [data[:n].hex()], 'loop': True}
+                calls = ck.replay([sc])[0]['calls']
+                somes = [c for c in calls if c['result'] == 'some']
+                desc = f"one frame (opcode 0x{mval(m, H.opcode):02x}, body_length {body}, item limit {mval(m, D.limit)}) and nothing behind it: " \
+                       f"decode hands out {len(somes)} frames" + (' and does not stop (64 calls)' if calls and calls[-1]['result'] == 'runaway' else '')
+                return (True if len(somes) > 1 else None), desc, sc
+            ck.obligation('decode: a frame is handed out once (parser back in its initial state)', p.pc, z3.BoolVal(fresh_state), {}, on_ps, small)
         for ev in p.events:
             if ev[0] == 'reserve':
                 ck.obligation('decode:reserve-within-item-limit', p.pc, z3.ULE(ev[1], z3.ZeroExt(32, D.limit)), {}, None, small)
